@@ -268,12 +268,14 @@ def coerceF (t f : Val) : M Val :=
   | _ => pure f
 
 /-- the scalar arm of `if_then_else`: `falsev = _ensurefxp(falsev)` when `truev` is fixed point,
-then `falsev + cond * (truev - falsev)` (`LinCombBool.__mul__`: `self.lc * other`) -/
+then `ret = falsev + cond * (truev - falsev)` (`LinCombBool.__mul__`: `self.lc * other`), returned as
+`LinCombBool(ret, False)` when both branches are `LinCombBool`s (`iteTag`) -/
 def iteScalar (cond : LinComb) (t f : Val) : M Val := do
   let f' ← coerceF t f
   let d ← subV t f'
   let prod ← mulLV cond d
-  addV f' prod
+  let ret ← addV f' prod
+  iteTag t f' ret
 
 /-- the result of an operator: a new object -/
 def freshS (v : Val) (n : Nat) : M (SVal × Nat) :=
